@@ -14,8 +14,11 @@ strings; GUID uniqueness per name.
 """
 import ast
 
+import re
+
 from ..cfg import build as build_cfg
 from ..consteval import RegexConst, const_eval
+from ..facts import Facts, direct, has, has_call, has_const, param_of
 from ..index import unparse, walk_no_nested
 from .. import query as Q
 from .. import rx
@@ -24,113 +27,183 @@ SOL = 'bfg9000.backends.msbuild.solution:'
 WIN = 'bfg9000.shell.windows:'
 
 
+def _facts(ctx):
+    f = getattr(ctx, '_facts', None)
+    if f is None:
+        f = ctx._facts = Facts(ctx.repo)
+    return f
+
+
 def uuid_persist(ctx):
     R = 'UUID-PERSIST'
     ctx.rule(R, 'UuidMap loads the persisted map, looks a key up before '
              'drawing a new GUID, stores new GUIDs, save() writes every key '
-             'handed out in this run, msbuild.write saves after writing the '
-             'projects')
+             'handed out in this run, msbuild.write saves after the projects '
+             'are written')
     repo = ctx.repo
-    init = repo.method(SOL + 'UuidMap', '__init__')
-    t = unparse(init.node)
-    ok = 'self._map = self._load(path)' in t and 'except OSError' in t and \
-        'self._map = {}' in t
+    F = _facts(ctx)
+    init = F.fn(SOL + 'UuidMap.__init__')
+    v = F.stored(init, '_map') or set()
+    ok = has_call(v, '_load') and param_of(v, 'path') and any(
+        a.startswith('alloc:') for a in v)
     ctx.ob(R, 'UuidMap.__init__|loads-persisted-map', ok, init.node,
-           'the persisted GUID map is not loaded')
-    gi = repo.method(SOL + 'UuidMap', '__getitem__')
-    g = build_cfg(gi.node)
-    news = [g.stmt_of(c) for c in Q.calls(gi.node, nested=False)
-            if unparse(c.func) in ('uuid.uuid4', 'uuid4')]
-    lookups = [n for n in walk_no_nested(gi.node) if isinstance(n, ast.If)
-               and unparse(n.test) == 'key in self._map']
-    ok = len(news) == 1 and len(lookups) == 1 and g.dominates(
-        lookups[0], news[0]) and any(
-            unparse(s) == 'return self._map[key]' for s in lookups[0].body)
+           'the persisted GUID map is not loaded (with an empty map as the '
+           'fallback)')
+    gi = F.fn(SOL + 'UuidMap.__getitem__')
+    news = F.effects(gi, lambda e: e.name == 'uuid4', depth=1)
+    ok = bool(news) and all(any(
+        op == 'NotIn' and param_of(l, 'key') and has(r, 'self', '_map')
+        for op, l, r in F.guard_compares(e.call, e.fn)) or any(
+        has(x, 'self', '_map') and param_of(x, 'key')
+        for x in [e.control()]) for e in news)
     ctx.ob(R, 'UuidMap.__getitem__|lookup-before-new', ok, gi.node,
            'a new GUID is drawn although the key is in the persisted map')
-    # the new GUID is not on the lookup-hit path
-    if news and lookups:
-        in_body = any(news[0] is s or _contains(s, news[0])
-                      for s in lookups[0].body)
-        ctx.ob(R, 'UuidMap.__getitem__|new-only-when-missing', not in_body,
-               gi.node, 'existing keys get a fresh GUID')
-    ok = any(unparse(n) == 'self._map[key] = u' for n in ast.walk(gi.node)
-             if isinstance(n, ast.Assign))
+    r_ = F.returns(gi)
+    ok = has(r_, 'self', '_map') and not any(
+        has_call(F.atoms(t, gi), 'uuid4') for t in F.guards(
+            news[0].call, news[0].fn)) if news else False
+    ctx.ob(R, 'UuidMap.__getitem__|existing-key-returns-saved-guid', ok,
+           gi.node, 'the GUID saved for a key is not what a lookup returns')
+    ok = any(has(t, 'self', '_map') and has_call(v_, 'uuid4')
+             for t, v_, n in F.stores(gi))
     ctx.ob(R, 'UuidMap.__getitem__|stores-new', ok, gi.node,
            'a newly drawn GUID is not stored in the map')
-    ok = unparse(gi.node.body[0]) == 'self._seen.add(key)'
+    ok = F.must(gi, lambda e: e.name == 'add' and has(
+        e.recv(), 'self', '_seen') and param_of(e.all_args(), 'key'))
     ctx.ob(R, 'UuidMap.__getitem__|marks-seen', ok, gi.node,
-           'keys handed out are not marked as seen (save would drop them)')
-    sv = repo.method(SOL + 'UuidMap', 'save')
-    t = unparse(sv.node)
-    ok = 'in self._map.items() if k in self._seen' in t and \
-        "'map': seenmap" in t and "'version': self.version" in t
+           'keys handed out are not (always) marked as seen: save would '
+           'drop them')
+    sv = F.fn(SOL + 'UuidMap.save')
+    top = None
+    for e in F.effects(sv, lambda e: e.name == 'dump', depth=1):
+        top = F.flow.record(e.call.args[0], e.fn, e.bind)
+    m_ = F.flow.rec_atoms(top, 'map') if top else set()
+    conds = [t for n in ast.walk(sv.node) if isinstance(
+        n, ast.comprehension) for t in n.ifs] + [
+        n.test for n in ast.walk(sv.node) if isinstance(n, (ast.If,
+                                                            ast.IfExp))]
+    ok = top is not None and set(top) == {'version', 'map'} and \
+        has(m_, 'self', '_map') and has(m_, 'hex') and \
+        has(F.flow.rec_atoms(top, 'version'), 'version') and all(
+            has(F.atoms(t, sv), 'self', '_seen') for t in conds)
     ctx.ob(R, 'UuidMap.save|writes-all-seen-keys', ok, sv.node,
-           'save() does not write every key handed out in this run')
-    ok = "open(path or self._path, 'w')" in t
-    ctx.ob(R, 'UuidMap.save|same-file', ok, sv.node, '')
-    ld = repo.method(SOL + 'UuidMap', '_load')
-    t = unparse(ld.node)
-    ok = 'uuid.UUID(hex=v) for' in t and "in state['map'].items()" in t and \
-        "state['version'] > cls.version" in t
-    ctx.ob(R, 'UuidMap._load|reads-map', ok, ld.node, '')
-    ok = 'v.hex' in unparse(sv.node)
-    ctx.ob(R, 'UuidMap|hex-round-trip', ok, sv.node, '')
-    w = repo.func('bfg9000.backends.msbuild.writer:write')
-    g = build_cfg(w.node)
-    saves = [g.stmt_of(c) for c in Q.calls(w.node, nested=False)
-             if unparse(c) == 'uuids.save()']
-    loops = [n for n in walk_no_nested(w.node) if isinstance(n, ast.For) and
-             unparse(n.iter) == 'solution']
-    ok = len(saves) == 1 and len(loops) == 1 and g.dominates(
-        loops[0], saves[0]) and g.must_pass(saves)
+           'save() does not write every key handed out in this run (and '
+           'only those), or skips writing under some condition')
+    ops = [e for e in F.effects(sv, lambda e: e.name == 'open', depth=1)]
+    ok = bool(ops) and all(has(e.arg(0), 'self', '_path') and
+                           has_const(e.all_args(), 'w') for e in ops)
+    ctx.ob(R, 'UuidMap.save|same-file', ok, sv.node,
+           'the map is not written back to the file it was loaded from')
+    ld = F.fn(SOL + 'UuidMap._load')
+    r = F.returns(ld)
+    ok = any('UUID(hex=' in a for a in r) and has(r, "['map']")
+    rs = [n for n in walk_no_nested(ld.node) if isinstance(n, ast.Raise)]
+    ok = ok and any(op == 'Gt' and has(l, "['version']") and has(
+        rr, 'version') for n in rs for op, l, rr in
+        F.guard_compares(n, ld))
+    ctx.ob(R, 'UuidMap._load|reads-map', ok, ld.node,
+           'the saved map is not read back as GUIDs (hex form), or a newer '
+           'file version is accepted')
+    w = F.fn('bfg9000.backends.msbuild.writer:write')
+    saves = [e for e in F.effects(w, lambda e: e.name == 'save', depth=1)
+             if has_call(e.recv(), 'UuidMap')]
+    pw = [e for e in F.effects(w, lambda e: e.name == 'write', depth=1)
+          if has_call(e.recv(), 'Solution')]
+    ok = bool(saves) and bool(pw) and all(
+        all(F.always_before(p_, s_) for p_ in pw) for s_ in saves) and \
+        F.must(w, lambda e: e.name == 'save' and has_call(e.recv(),
+                                                          'UuidMap'))
     ctx.ob(R, 'msbuild.write|save-after-projects', ok, w.node,
            'the GUID map is not saved at the end of a normal run')
-    ok = "UuidMap(env.builddir.append('.bfg_uuid').string())" in unparse(
-        w.node) and 'Solution(uuids)' in unparse(w.node)
-    ctx.ob(R, 'msbuild.write|map-in-builddir', ok, w.node, '')
-    # projects take their GUID from the map by a key derived from the name
-    si = repo.method(SOL + 'Solution', '__setitem__')
-    ok = 'value.set_uuid(self._uuids)' in unparse(si.node)
-    ctx.ob(R, 'Solution.__setitem__|guid-from-map', ok, si.node, '')
-    pj = repo.method('bfg9000.backends.msbuild.syntax:Project', 'set_uuid')
-    ok = 'self.uuid = uuids[self.name]' in unparse(pj.node)
+    um = F.calls_to(w, 'UuidMap', depth=1)
+    sl = F.calls_to(w, 'Solution', depth=1)
+    ok = bool(um) and all(has(e.arg(0), 'env', 'builddir') and any(
+        "'.bfg_uuid'" in a for a in e.arg(0)) for e in um) and bool(
+        sl) and all(
+        has_call(e.arg(0), 'UuidMap') for e in sl)
+    ctx.ob(R, 'msbuild.write|map-in-builddir', ok, w.node,
+           'the GUID map does not live in the build directory / is not '
+           'given to the solution')
+    si = F.fn(SOL + 'Solution.__setitem__')
+    ok = any(has(e.all_args(), 'self', '_uuids')
+             for e in F.calls_to(si, 'set_uuid', depth=1))
+    ctx.ob(R, 'Solution.__setitem__|guid-from-map', ok, si.node,
+           'projects added to the solution do not get their GUID from the '
+           'map')
+    pj = F.fn('bfg9000.backends.msbuild.syntax:Project.set_uuid')
+    v = F.stored(pj, 'uuid') or set()
+    ok = param_of(v, 'uuids') and {a for a in v if a.startswith(
+        'via:')} == {'via:self.name'}
     ctx.ob(R, 'Project.set_uuid|keyed-by-name', ok, pj.node,
-           'project GUIDs are not keyed by the project name')
-
-
-def _contains(outer, inner):
-    return any(n is inner for n in ast.walk(outer))
+           'project GUIDs are not keyed by the (full) project name')
 
 
 def sln_deps(ctx):
     R = 'SLN-DEPS'
     ctx.rule(R, 'every project dependency refers to a project of the same '
-             'solution: the `not in self` raise dominates the append')
-    repo = ctx.repo
-    f = repo.method(SOL + 'Solution', 'dependencies')
-    g = build_cfg(f.node)
-    aps = [g.stmt_of(c) for c in Q.calls(f.node, nested=False)
-           if unparse(c.func) == 'dependencies.append']
-    guards = [n for n in walk_no_nested(f.node) if isinstance(n, ast.If) and
-              unparse(n.test) == 'dep_output not in self' and any(
-                  isinstance(s, ast.Raise) for s in n.body)]
-    ok = len(aps) == 1 and len(guards) == 1 and g.dominates(guards[0],
-                                                            aps[0])
-    ctx.ob(R, 'Solution.dependencies|unknown-raises-before-append', ok,
-           f.node, 'a dependency on a project outside the solution can be '
-           'recorded')
-    if aps:
-        ok = unparse(aps[0]) == 'dependencies.append(self[dep_output])'
-        ctx.ob(R, 'Solution.dependencies|appends-the-checked-project', ok,
-               f.node, '')
-    c = repo.method(SOL + 'Solution', '__contains__')
-    ok = 'key in self._projects' in unparse(c.node)
-    ctx.ob(R, 'Solution.__contains__|projects', ok, c.node, '')
-    w = repo.method(SOL + 'Solution', 'write')
-    ok = 'Var(i.uuid_str, i.uuid_str) for i in p.dependencies' in unparse(
-        w.node)
-    ctx.ob(R, 'Solution.write|deps-by-guid', ok, w.node, '')
+             'solution: a dependency is recorded only after the membership '
+             'test that raises for unknown projects')
+    F = _facts(ctx)
+    f = F.fn(SOL + 'Solution.dependencies')
+    subs = []
+    for g in F.reach(f, 1):
+        if g.cls is not f.cls:
+            continue
+        for n in ast.walk(g.node):
+            if isinstance(n, ast.Subscript) and isinstance(
+                    n.ctx, ast.Load) and isinstance(
+                        n.value, ast.Name) and n.value.id == 'self':
+                subs.append((n, g))
+    ok = bool(subs) and all(any(
+        op == 'In' and param_of(r, 'self') and
+        direct(l) & direct(F.atoms(n.slice, g))
+        for op, l, r in F.guard_compares(n, g)) for n, g in subs)
+    raising = False
+    for g in F.reach(f, 1):
+        if g.cls is not f.cls:
+            continue
+        for n in ast.walk(g.node):
+            if isinstance(n, ast.Raise) and any(
+                    op == 'NotIn' and param_of(r, 'self')
+                    for op, l, r in F.guard_compares(n, g)):
+                raising = True
+    ctx.ob(R, 'Solution.dependencies|unknown-raises-before-append',
+           ok and raising, f.node,
+           'a dependency on a project outside the solution can be recorded '
+           'or is silently dropped (the project is looked up without the '
+           'membership test that raises)')
+    ok = param_of(F.returns(f), 'self')
+    ctx.ob(R, 'Solution.dependencies|appends-the-checked-project', ok,
+           f.node, 'the recorded dependency is not the solution\'s own '
+           'project object')
+    c = F.fn(SOL + 'Solution.__contains__')
+    ok = has(F.returns(c), 'self', '_projects') or has(
+        F.return_control(c), 'self', '_projects')
+    ctx.ob(R, 'Solution.__contains__|projects', ok, c.node,
+           'membership is not decided by the project table')
+    w = F.fn(SOL + 'Solution.write')
+    a = set()
+    for e in F.effects(w, lambda e: True, depth=0):
+        a |= e.all_args()
+    ok = has(a, 'dependencies', 'uuid_str')
+    ctx.ob(R, 'Solution.write|deps-by-guid', ok, w.node,
+           'project dependencies are not written by GUID')
+
+
+def _regex_const(ctx, F, fn, method):
+    """Pattern strings of the compiled regexes fn applies `method` to."""
+    out = []
+    for e in F.effects(fn, lambda e: e.name == method, depth=1):
+        if isinstance(e.call.func, ast.Attribute):
+            rc = const_eval(ctx.repo, e.fn.module, e.call.func.value)
+            if isinstance(rc, RegexConst):
+                out.append((rc.pattern, e))
+            elif isinstance(e.call.func.value, ast.Name) and \
+                    e.call.func.value.id in ('re', '_re') and e.call.args:
+                p = const_eval(ctx.repo, e.fn.module, e.call.args[0])
+                if isinstance(p, str):
+                    out.append((p, e))
+    return out
 
 
 def win_quote_table(ctx):
@@ -140,96 +213,112 @@ def win_quote_table(ctx):
              'tab, double quote), quotes the empty string, doubles '
              'backslashes before a quote and at the end of a quoted word')
     repo = ctx.repo
-    m = repo.module('bfg9000.shell.windows')
-    f = repo.func(WIN + 'inner_quote_info')
-    searches = [n for n in ast.walk(f.node) if isinstance(n, ast.Call) and
-                Q.callee_attr(n) == 'search']
+    F = _facts(ctx)
+    f = F.fn(WIN + 'inner_quote_info')
+    searches = _regex_const(ctx, F, f, 'search')
     Q.require(len(searches) == 1, 'windows.inner_quote_info: regex test')
-    rc = const_eval(repo, m, searches[0].func.value)
-    Q.require(isinstance(rc, RegexConst), 'windows: bad-char regex')
-    bad, bad_at_end = rx.search_alternative_chars(rc.pattern)
+    pat, se = searches[0]
+    cre = re.compile(pat)
     for ch, why in ((' ', 'argument separator'), ('\t', 'argument separator'),
                     ('"', 'quote character')):
-        ctx.ob(R, 'windows._bad_chars|{!r}'.format(ch), ch in bad,
-               searches[0], '{!r} ({}) does not trigger quoting'.format(
-                   ch, why))
-    t = unparse(f.node)
-    ok = "if s == ''" in t or 's == \'\'' in t
-    ctx.ob(R, 'inner_quote_info|empty-string-quoted', ok, f.node,
-           'the empty string is not quoted')
-    # backslash doubling: runs of backslashes before a quote or at the end
-    ctx.ob(R, 'windows._bad_chars|trailing-backslash', '\\' in bad_at_end
-           or '\\' in bad, searches[0],
+        ctx.ob(R, 'windows._bad_chars|{!r}'.format(ch),
+               cre.search('a' + ch + 'b') is not None, se.call,
+               '{!r} ({}) does not trigger quoting'.format(ch, why))
+    ctx.ob(R, 'windows._bad_chars|trailing-backslash',
+           cre.search('ab\\') is not None, se.call,
            'a trailing backslash does not trigger quoting (it would escape '
            'the closing quote)')
-    subs = [n for n in ast.walk(f.node) if isinstance(n, ast.Call) and
-            Q.callee_attr(n) == 'sub']
+    ok = False
+    for r in Q.returns(f.node):
+        if r.value is None:
+            continue
+        a = F.atoms(r.value, f)
+        if has_const(a, '') and has_const(a, True) and any(
+                op == 'Eq' and (has_const(l, '') or has_const(rr, ''))
+                for op, l, rr in F.guard_compares(r, f)):
+            ok = True
+    ctx.ob(R, 'inner_quote_info|empty-string-quoted', ok, f.node,
+           'the empty string is not quoted')
+    subs = _regex_const(ctx, F, f, 'sub')
     ok = False
     if len(subs) == 1:
-        rr = const_eval(repo, m, subs[0].func.value)
-        reps = [n for n in ast.walk(f.node) if isinstance(
-            n, ast.FunctionDef) and n is not f.node]
-        if isinstance(rr, RegexConst) and len(reps) == 1:
-            anywhere, start, grp = rx.sub_pattern_chars(
-                rr.pattern.replace('|$)', ')'))
-            rt = unparse(reps[0])
-            ok = '"' in anywhere and rr.pattern.endswith('|$)') and \
-                'm.group(1) * 2' in rt and 'm.group(2)' in rt
+        spat, e = subs[0]
+        try:
+            c2 = re.compile(spat)
+            m1 = [m for m in c2.finditer('ab\\\\') if m.end() == 4 and
+                  m.group(0) == '\\\\']
+            m2 = [m for m in c2.finditer('a\\"b') if m.group(0) ==
+                  '\\"']
+            ok = bool(m1) and bool(m2) and m1[0].group(1) == '\\\\' and \
+                m2[0].group(1) == '\\' and m2[0].group(2) == '"'
+        except (re.error, IndexError):
+            ok = False
+        repl = e.arg(0) if e.call.args and not isinstance(
+            e.call.func.value, ast.Name) or True else set()
+        repl = e.arg(0) if isinstance(const_eval(
+            repo, e.fn.module, e.call.func.value), RegexConst) else e.arg(1)
+        ok = ok and has_call(repl, 'mul2') and has_const(
+            repl, '\\') and any('group(' in a for a in repl)
     ctx.ob(R, 'inner_quote_info|backslashes-doubled', ok, f.node,
            'backslashes before a quote / at the end are not doubled and the '
            'quote escaped')
-    wq = repo.func(WIN + 'wrap_quotes')
-    ok = '\'"\' + s + \'"\'' in unparse(wq.node)
-    ctx.ob(R, 'wrap_quotes|double-quotes', ok, wq.node, '')
+    wq = F.fn(WIN + 'wrap_quotes')
+    r = F.returns(wq)
+    ok = has_const(r, '"') and param_of(r, 's')
+    ctx.ob(R, 'wrap_quotes|double-quotes', ok, wq.node,
+           'quoted words are not wrapped in double quotes')
 
 
 def win_tokenize_parity(ctx):
     R = 'WIN-TOKENIZE-PARITY'
-    ctx.rule(R, 'the Windows splitter implements the MS C runtime backslash '
-             'rule structurally: a run of n backslashes before a double '
-             'quote yields n//2 backslashes and, by parity, a literal quote '
-             'or a quote toggle; a run not followed by a quote is literal; '
-             'the run counter is reset after either')
-    repo = ctx.repo
-    f = repo.func(WIN + '_tokenize')
-    t = unparse(f.node)
-    loops = [n for n in f.node.body if isinstance(n, ast.For)]
-    ok = len(loops) == 1
-    ctx.ob(R, '_tokenize|single-pass', ok, f.node, '')
-    if not ok:
-        return
-    branches = {}
-    cur = loops[0].body[0] if loops[0].body and isinstance(
-        loops[0].body[0], ast.If) else None
-    while cur is not None:
-        branches[unparse(cur.test)] = cur.body
-        if len(cur.orelse) == 1 and isinstance(cur.orelse[0], ast.If):
-            cur = cur.orelse[0]
-        else:
-            branches['<else>'] = cur.orelse
-            cur = None
-    bs = branches.get("c == '\\\\'")
-    ok = bs is not None and len(bs) == 1 and isinstance(
-        bs[0], ast.AugAssign) and isinstance(bs[0].op, ast.Add) and \
-        unparse(bs[0].value) == '1'
-    ctx.ob(R, '_tokenize|backslash-counts', ok, f.node,
+    ctx.rule(R, 'necessary arithmetic of the MS C runtime backslash rule is '
+             'present in the Windows splitter (in _tokenize or the helpers '
+             'it calls): backslashes are counted as a run, the run is '
+             'halved, its parity is taken, and the run is reset. (That the '
+             'pieces are combined correctly is a transducer property and is '
+             'not decided.)')
+    F = _facts(ctx)
+    f = F.fn(WIN + '_tokenize')
+    halves = parity = counts = resets = False
+    for g in F.reach(f, 1):
+        if g.module is not f.module:
+            continue
+        for n in ast.walk(g.node):
+            if isinstance(n, ast.BinOp) and isinstance(
+                    n.right, ast.Constant):
+                if isinstance(n.op, ast.FloorDiv) and n.right.value == 2 or \
+                        isinstance(n.op, ast.RShift) and n.right.value == 1:
+                    halves = True
+                if isinstance(n.op, ast.Mod) and n.right.value == 2 or \
+                        isinstance(n.op, ast.BitAnd) and n.right.value == 1:
+                    parity = True
+            if isinstance(n, ast.Call) and isinstance(n.func, ast.Name) and \
+                    n.func.id == 'divmod' and len(n.args) == 2 and \
+                    isinstance(n.args[1], ast.Constant) and \
+                    n.args[1].value == 2:
+                halves = parity = True
+            if isinstance(n, ast.AugAssign) and isinstance(
+                    n.op, ast.Add) and isinstance(
+                        n.value, ast.Constant) and n.value.value == 1:
+                if any(op == 'Eq' and (has_const(l, '\\') or
+                                       has_const(r, '\\'))
+                       for op, l, r in F.guard_compares(n, g)):
+                    counts = True
+            if isinstance(n, ast.Assign) and isinstance(
+                    n.value, ast.Constant) and n.value.value == 0 and \
+                    n in [x for x in ast.walk(g.node)
+                          if getattr(x, '_parent', None) is not g.node]:
+                resets = True
+    ctx.ob(R, '_tokenize|backslash-counts', counts, f.node,
            'backslashes are not counted as a run')
-    var = unparse(bs[0].target) if ok else 'escapes'
-    q = branches.get("c == '\"'")
-    qt = ' '.join(unparse(s_) for s_ in q) if q else ''
-    ok = q is not None and 'range({} // 2)'.format(var) in qt and \
-        '{} % 2'.format(var) in qt and '_Token.quote' in qt and \
-        "(_Token.char, '\"')" in qt and '{} = 0'.format(var) in qt
-    ctx.ob(R, '_tokenize|quote-branch-halves-and-parity', ok, f.node,
-           'before a quote the run is not halved / the parity does not '
-           'decide between a literal quote and a quote toggle')
-    e = branches.get('<else>')
-    et = ' '.join(unparse(s_) for s_ in e) if e else ''
-    ok = e is not None and 'range({})'.format(var) in et and \
-        '{} = 0'.format(var) in et and '_Token.space' in et
-    ctx.ob(R, '_tokenize|other-branch-keeps-run', ok, f.node,
-           'a backslash run that is not followed by a quote is not kept '
-           'literally')
+    ctx.ob(R, '_tokenize|run-halved-before-quote', halves, f.node,
+           'a run of backslashes is never halved: 2n backslashes before a '
+           'quote must yield n')
+    ctx.ob(R, '_tokenize|parity-decides-literal-quote', parity, f.node,
+           'the parity of a backslash run is never taken: it decides '
+           'between a literal quote and a quote toggle')
+    ctx.ob(R, '_tokenize|run-reset', resets, f.node,
+           'the run counter is never reset inside the loop')
 
 
 def check(ctx):
